@@ -35,10 +35,23 @@ _FLAGS: Dict[Any, Any] = {}
 
 
 def static_dir() -> str:
-    if 'd' not in _TMP:
-        d = tempfile.mkdtemp(prefix='vf-c07-')
-        _TMP['d'] = d
+    # per process: shards are forked from a parent that may have created its own directory for pinned replays
+    if _TMP.get('pid') != os.getpid():
+        _TMP['pid'] = os.getpid()     # type: ignore[assignment]
+        _TMP['d'] = tempfile.mkdtemp(prefix='vf-static-')
+        _FLAGS.clear()
+        import atexit
+        import shutil
+        atexit.register(lambda d=_TMP['d'], pid=os.getpid(): os.getpid() == pid and shutil.rmtree(d, ignore_errors=True))
     return _TMP['d']
+
+
+def cleanup_static() -> None:
+    if _TMP.get('pid') == os.getpid() and 'd' in _TMP:
+        import shutil
+        shutil.rmtree(_TMP.pop('d'), ignore_errors=True)
+        _TMP.pop('pid', None)
+        _FLAGS.clear()
 
 
 def static_file(n: int, salt: int) -> Tuple[str, bytes]:
@@ -65,6 +78,10 @@ def route_plugin() -> Any:
 
         def handle_request(self, request: Any) -> None:
             parts = (request.path or b'').split(b'?')[0].split(b'/')
+            if len(parts) < 5 or parts[1] != b'gen':
+                # a request this plugin never registered a route for was handed to it
+                self.client.queue(okResponse(content=b'HANDLED-BY-THE-WRONG-ROUTE-PLUGIN', compress=False))
+                return
             size, salt, pieces = int(parts[2]), int(parts[3]), max(1, int(parts[4]))
             body = stream(size, salt)
             raw = bytes(okResponse(content=body, headers={b'Content-Type': b'application/octet-stream'}, compress=False))
@@ -345,7 +362,4 @@ def run_shard(spec: Dict[str, Any], seed: int, acc: Any) -> None:
     try:
         hyp.drive(cases(spec['source'], spec['mode'], spec['big']), chk, acc, max_examples=spec['examples'], seed=seed)
     finally:
-        if 'd' in _TMP:
-            import shutil
-            shutil.rmtree(_TMP.pop('d'), ignore_errors=True)
-            _FLAGS.clear()
+        cleanup_static()
